@@ -24,7 +24,8 @@ def value(opt, kind, src, variant, defaults):
         flip = (src == "user") == (variant == 0)
         return (not d) if flip else d
     if kind == "str":
-        return "%s_%s" % (src, short(opt))
+        # two words: a string value must arrive in one piece, whatever it contains
+        return "%s_%s w2" % (src, short(opt))
     if kind == "list":
         return ["%s_pat1" % src, "%s_pat2" % src]
     if kind == "path":
@@ -34,8 +35,12 @@ def value(opt, kind, src, variant, defaults):
     raise ValueError(kind)
 
 
-def bad_value(kind):
-    return {"bool": "notabool", "str": [1, 2], "list": 42, "path": 42, "strseq": 42}[kind]
+BAD = {"bool": ["notabool", 3, 0, 0.5, [True]], "str": [[1, 2], 42, True, {"a": 1}], "list": [42], "path": [42, [1]], "strseq": [42]}
+
+
+def bad_value(kind, k=0):
+    """a value of the wrong type for the option kind (several per kind: a number is not a boolean, a list not a string)"""
+    return BAD[kind][k % len(BAD[kind])]
 
 
 def documented_defaults():
@@ -66,7 +71,7 @@ def replay_one(beh, kinds, sandbox, variant):
         for src, st in per.items():
             if st == "unset":
                 continue
-            v = value(opt, kinds[opt], src, variant, defaults) if st == "ok" else bad_value(kinds[opt])
+            v = value(opt, kinds[opt], src, variant, defaults) if st == "ok" else bad_value(kinds[opt], variant + len(opt))
             if src == "cli":
                 if opt == "input.recursive":
                     argv += ["-r"]
